@@ -265,6 +265,9 @@ def traversal_idiom(index, ctx):
             succ_vars[n.targets[0].id] = set()
     # worklist and cursor
     pops = [n for n in ast.walk(fn) if isinstance(n, ast.Assign) and isinstance(n.value, ast.Call) and isinstance(n.value.func, ast.Attribute) and n.value.func.attr in ("pop", "popleft")]
+    if not pops and frontier_form(ctx, F, fn, succ_vars, implied_conditions_fn=implied_conditions, kind_ok=lambda t, cur: _kind_test(index, F, t, cur)):
+        _variable_mapping(index, ctx, F)
+        return
     if len(pops) != 1 or not (succ_vars or colls):
         ctx.undecided("R4", f"{F.short}: worklist", "worklist pop / successor variables not recognised", F.loc())
         return
@@ -272,7 +275,8 @@ def traversal_idiom(index, ctx):
     worklist = base_name(pops[0].value.func.value)
     # roots: worklist initialised from roots minus excluded
     init = [n for n in ast.walk(fn) if isinstance(n, ast.Assign) and isinstance(n.targets[0], ast.Name) and n.targets[0].id == worklist]
-    roots_ok = bool(init) and any(isinstance(x, ast.BinOp) and isinstance(x.op, ast.Sub) for x in ast.walk(init[0].value))
+    roots_ok = bool(init) and any((isinstance(x, ast.BinOp) and isinstance(x.op, ast.Sub)) or (isinstance(x, ast.Call) and isinstance(x.func, ast.Attribute) and x.func.attr == "difference")
+                                  for x in ast.walk(init[0].value))
     ctx.require(roots_ok, "R4", f"{F.short}: traversal starts from the roots minus the excluded nodes", f"`{norm_text(init[0]) if init else ''}`",
                 f"worklist initialisation `{norm_text(init[0]) if init else '?'}` does not subtract the excluded nodes from the roots", F.loc(init[0]) if init else F.loc())
     # adoptions: (cfg node, what is adopted, conditions known, how, is_collection)
@@ -331,13 +335,18 @@ def traversal_idiom(index, ctx):
     for vs in sorted(visited_sets):
         vinit = [x for x in ast.walk(fn) if isinstance(x, ast.Assign) and isinstance(x.targets[0], ast.Name) and x.targets[0].id == vs]
         params_ = {a.arg for a in fn.args.args}
-        ok = vs in params_ or any(names_read(x.value) & params_ for x in vinit)
+        from ..astutil import inline_locals
+
+        ok = vs in params_ or any(names_read(x.value) & params_ or names_read(inline_locals(x.value, fn, keep={vs})) & params_ for x in vinit)
         ctx.require(ok, "R4", f"{F.short}: visited set `{vs}` starts from the excluded nodes", "initialised from the parameter", f"`{vs}` is not initialised from the excluded nodes", F.loc(vinit[0]) if vinit else F.loc())
     # collection depends on the node kind only
     coll = [n for n in cfg.stmt_nodes() if n.kind == "stmt" and isinstance(n.ast, ast.Expr) and isinstance(n.ast.value, ast.Call) and isinstance(n.ast.value.func, ast.Attribute)
-            and n.ast.value.func.attr == "add" and n.ast.value.args and isinstance(n.ast.value.args[0], ast.Name) and n.ast.value.args[0].id == cursor]
+            and n.ast.value.func.attr == "add" and n.ast.value.args and ((isinstance(n.ast.value.args[0], ast.Name) and n.ast.value.args[0].id == cursor) or
+                                                                          (isinstance(n.ast.value.args[0], ast.Attribute) and base_name(n.ast.value.args[0]) == cursor))
+            and base_name(n.ast.value.func.value) != worklist]
     for n in coll:
-        tests = [t for t, _ in cfg.guards_of(n) if t.kind == "test" and isinstance(t.ast, ast.If)]
+        tests = [t for t, _ in cfg.guards_of(n) if t.kind == "test" and isinstance(t.ast, ast.If) and cursor in names_read(t.ast.test)
+                 and not (t.ast.body and all(isinstance(b_, ast.Raise) for b_ in t.ast.body) and not t.ast.orelse)]  # (earlier raise-guards on the arguments do not count)
         def kind_test(e):
             """The expression (or the one-line predicate it calls on the cursor) looks at the node's class name only."""
             if "AccumulateGrad" in norm_text(e) and cursor in names_read(e):
@@ -355,10 +364,118 @@ def traversal_idiom(index, ctx):
         ok = len(tests) == 1 and kind_test(tests[0].ast.test)
         ctx.require(ok, "R4", f"{F.short}: collection of leaf accumulators", "conditional on the node kind only", f"`{norm_text(n.ast)}` is guarded by {[norm_text(t.ast.test) for t in tests]}", F.loc(n.ast))
     ctx.floor("collection sites", len(coll), 1)
-    # .variable mapping
+    _variable_mapping(index, ctx, F)
+
+
+def _variable_mapping(index, ctx, F):
     callers = [f for f in index.all_functions("torchjd.autojac") if any(isinstance(x, ast.Call) and isinstance(x.func, ast.Name) and x.func.id == F.name for x in ast.walk(f.node)) and f is not F]
-    ok = any(any(isinstance(x, ast.Attribute) and x.attr == "variable" for x in ast.walk(f.node)) for f in callers)
+    has = lambda f: any((isinstance(x, ast.Attribute) and x.attr == "variable") or (isinstance(x, ast.Constant) and x.value == "variable") for x in ast.walk(f.node))
+    ok = has(F) or any(has(f) for f in callers)
     ctx.require(ok, "R4", "leaves are the collected nodes' .variable", "mapping present", "the collected AccumulateGrad nodes are not mapped to their .variable", callers[0].loc() if callers else F.loc())
+
+
+def _kind_test(index, F, e, cursor):
+    """The expression (or the one-line predicate it calls on the cursor) looks at the node's class name only."""
+    if "AccumulateGrad" in norm_text(e) and cursor in names_read(e):
+        return True
+    if isinstance(e, ast.Call) and isinstance(e.func, ast.Name) and len(e.args) == 1 and isinstance(e.args[0], ast.Name) and e.args[0].id == cursor and not e.keywords:
+        callee = index.resolve_name(F.module, e.func.id)
+        from ..index import FunctionInfo
+
+        if isinstance(callee, FunctionInfo) and len(callee.node.args.args) == 1:
+            rets = [r for r in ast.walk(callee.node) if isinstance(r, ast.Return) and r.value is not None]
+            return bool(rets) and all("AccumulateGrad" in norm_text(r.value) for r in rets)
+    return False
+
+
+def frontier_form(ctx, F, fn, succ_vars, implied_conditions_fn, kind_ok) -> bool:
+    """Level-synchronous breadth-first walk over sets:  frontier = roots - closed;  while frontier: for node in frontier: <collect>; for child in
+    node.next_functions: if child is not None: nxt.add(child);  nxt -= closed; closed |= nxt; frontier = nxt.  Returns False when the code is not of
+    this shape (nothing reported); otherwise reports the obligations of R4 and returns True."""
+    whiles = [w for w in ast.walk(fn) if isinstance(w, ast.While) and isinstance(w.test, ast.Name)]
+    if len(whiles) != 1:
+        return False
+    w = whiles[0]
+    fr = w.test.id
+    fors = [f for f in w.body if isinstance(f, ast.For) and isinstance(f.iter, ast.Name) and f.iter.id == fr and isinstance(f.target, ast.Name)]
+    reassign = [s_ for s_ in w.body if isinstance(s_, ast.Assign) and isinstance(s_.targets[0], ast.Name) and s_.targets[0].id == fr and isinstance(s_.value, ast.Name)]
+    if len(fors) != 1 or len(reassign) != 1 or w.body[-1] is not reassign[0]:
+        return False
+    cursor = fors[0].target.id
+    nxt = reassign[0].value.id
+    key = f"{F.short}: frontier walk"
+    # children pushed into `nxt`
+    adds = [c for c in ast.walk(fors[0]) if isinstance(c, ast.Call) and isinstance(c.func, ast.Attribute) and c.func.attr in ("add", "update") and base_name(c.func.value) == nxt]
+    if not adds:
+        ctx.undecided("R4", key, f"no successor is added to the next frontier `{nxt}`", F.loc(w))
+        return True
+    from ..cfg import cfg_of as _cfg_of
+
+    cfg = _cfg_of(fn)
+    for c in adds:
+        arg = c.args[0] if c.args else None
+        var = arg.id if isinstance(arg, ast.Name) else None
+        node_ = next((n for n in cfg.stmt_nodes() if any(x is c for e in ([n.ast] if n.kind == "stmt" else []) for x in ast.walk(e))), None)
+        conds = []
+        if node_ is not None:
+            for t, lbl in cfg.guards_of(node_):
+                test = t.ast.test if t.kind == "test" and hasattr(t.ast, "test") else None
+                if test is not None:
+                    conds += implied_conditions_fn(test, lbl)
+        not_none = var is not None and var in succ_vars and any(
+            isinstance(cc, ast.Compare) and isinstance(cc.left, ast.Name) and cc.left.id == var and isinstance(cc.comparators[0], ast.Constant) and cc.comparators[0].value is None
+            and ((isinstance(cc.ops[0], ast.IsNot) and tr) or (isinstance(cc.ops[0], ast.Is) and not tr)) for cc, tr in conds)
+        ctx.require(not_none, "R4", f"{F.short}: successor `{var}` joins the next frontier", "guarded by `is not None`",
+                    f"`{norm_text(c)}`: a successor is put on the next frontier without the `is not None` test (or it is not a successor of the current node)", F.loc(c))
+    # after the inner loop:  nxt -= closed ; closed |= nxt   (in this order, before `frontier = nxt`)
+    tail = w.body[w.body.index(fors[0]) + 1:]
+
+    def is_sub(s_):
+        if isinstance(s_, ast.AugAssign) and isinstance(s_.op, ast.Sub) and isinstance(s_.target, ast.Name) and s_.target.id == nxt and isinstance(s_.value, ast.Name):
+            return s_.value.id
+        if isinstance(s_, ast.Assign) and isinstance(s_.targets[0], ast.Name) and s_.targets[0].id == nxt:
+            v = s_.value
+            if isinstance(v, ast.BinOp) and isinstance(v.op, ast.Sub) and isinstance(v.left, ast.Name) and v.left.id == nxt and isinstance(v.right, ast.Name):
+                return v.right.id
+            if isinstance(v, ast.Call) and isinstance(v.func, ast.Attribute) and v.func.attr == "difference" and base_name(v.func.value) == nxt and v.args and isinstance(v.args[0], ast.Name):
+                return v.args[0].id
+        if isinstance(s_, ast.Expr) and isinstance(s_.value, ast.Call) and isinstance(s_.value.func, ast.Attribute) and s_.value.func.attr == "difference_update" and base_name(s_.value.func.value) == nxt \
+                and s_.value.args and isinstance(s_.value.args[0], ast.Name):
+            return s_.value.args[0].id
+        return None
+
+    def is_mark(s_, closed):
+        if isinstance(s_, ast.AugAssign) and isinstance(s_.op, ast.BitOr) and isinstance(s_.target, ast.Name) and s_.target.id == closed and isinstance(s_.value, ast.Name) and s_.value.id == nxt:
+            return True
+        return isinstance(s_, ast.Expr) and isinstance(s_.value, ast.Call) and isinstance(s_.value.func, ast.Attribute) and s_.value.func.attr == "update" and base_name(s_.value.func.value) == closed \
+            and s_.value.args and isinstance(s_.value.args[0], ast.Name) and s_.value.args[0].id == nxt
+
+    subs = [(i, is_sub(s_)) for i, s_ in enumerate(tail) if is_sub(s_)]
+    closed = subs[0][1] if subs else None
+    marks = [i for i, s_ in enumerate(tail) if closed and is_mark(s_, closed)]
+    ok = bool(subs) and bool(marks) and subs[0][0] < marks[0]
+    ctx.require(ok, "R4", f"{F.short}: next frontier is filtered by and added to the visited set", f"`{nxt} -= {closed}` then `{closed} |= {nxt}`",
+                f"the next frontier `{nxt}` is not reduced by the visited/excluded set and then recorded in it before it becomes the frontier (nodes would be revisited / excluded nodes entered)", F.loc(w))
+    if closed:
+        params_ = {a.arg for a in fn.args.args}
+        vinit = [x for x in ast.walk(fn) if isinstance(x, ast.Assign) and isinstance(x.targets[0], ast.Name) and x.targets[0].id == closed and not any(x is y for y in ast.walk(w))]
+        okv = closed in params_ or any(names_read(x.value) & params_ for x in vinit)
+        ctx.require(okv, "R4", f"{F.short}: visited set `{closed}` starts from the excluded nodes", "initialised from the parameter", f"`{closed}` is not initialised from the excluded nodes", F.loc(vinit[0]) if vinit else F.loc())
+        finit = [x for x in ast.walk(fn) if isinstance(x, ast.Assign) and isinstance(x.targets[0], ast.Name) and x.targets[0].id == fr and not any(x is y for y in ast.walk(w))]
+        okf = bool(finit) and any((isinstance(x, ast.BinOp) and isinstance(x.op, ast.Sub)) or (isinstance(x, ast.Call) and isinstance(x.func, ast.Attribute) and x.func.attr == "difference")
+                                  for x in ast.walk(finit[0].value)) and closed in names_read(finit[0].value)
+        ctx.require(okf, "R4", f"{F.short}: traversal starts from the roots minus the excluded nodes", f"`{norm_text(finit[0]) if finit else ''}`",
+                    f"frontier initialisation `{norm_text(finit[0]) if finit else '?'}` does not subtract the excluded nodes from the roots", F.loc(finit[0]) if finit else F.loc())
+    # collection depends on the node kind only
+    coll = [c for c in ast.walk(fors[0]) if isinstance(c, ast.Call) and isinstance(c.func, ast.Attribute) and c.func.attr == "add" and c.args and isinstance(c.args[0], (ast.Name, ast.Attribute))
+            and (c.args[0].id if isinstance(c.args[0], ast.Name) else base_name(c.args[0])) == cursor and base_name(c.func.value) != nxt]
+    for c in coll:
+        node_ = next((n for n in cfg.stmt_nodes() if n.kind == "stmt" and any(x is c for x in ast.walk(n.ast))), None)
+        tests = [t for t, _ in cfg.guards_of(node_) if t.kind == "test" and isinstance(t.ast, ast.If)] if node_ is not None else []
+        ctx.require(len(tests) == 1 and kind_ok(tests[0].ast.test, cursor), "R4", f"{F.short}: collection of leaf accumulators", "conditional on the node kind only",
+                    f"`{norm_text(c)}` is guarded by {[norm_text(t.ast.test) for t in tests]}", F.loc(c))
+    ctx.floor("collection sites", len(coll), 1)
+    return True
 
 
 def siblings(fn, stmt):
